@@ -297,10 +297,12 @@ func (gs GenesisState) ValidateOperatorUSDValues(operators map[string]struct{}, 
 			avsUSDValue = DecValueField{Amount: sdkmath.LegacyZeroDec()}
 		}
 
-		if operatorUSDValue.OptedUSDValue.TotalUSDValue.GT(avsUSDValue.Amount) {
+		// the AVS's USD value is the sum of the ACTIVE operators' totals (UpdateVotingPower): an operator
+		// below the minimum self delegation keeps its total but does not count towards the AVS.
+		if operatorUSDValue.OptedUSDValue.ActiveUSDValue.GT(avsUSDValue.Amount) {
 			return errorsmod.Wrapf(
 				ErrInvalidGenesisData,
-				"the total USD value of operator shouldn't be greater than the total USD value of the AVS, avsUSDValue: %s, operatorUSDValue: %+v",
+				"the active USD value of operator shouldn't be greater than the total USD value of the AVS, avsUSDValue: %s, operatorUSDValue: %+v",
 				avsUSDValue.Amount.String(), operatorUSDValue,
 			)
 		}
